@@ -169,6 +169,21 @@ class JumpToStageHandler(StabilizeHandler[JumpToStage]):
                 )
                 return
 
+            # The jump is the jumping stage's own, still pending, outcome: the
+            # stage stays RUNNING (its task REDIRECT) until the jump is applied.
+            # If it has been canceled or otherwise completed meanwhile (a failing
+            # sibling canceled it after the redirect was recorded), the jump must
+            # not rewrite that completed status (CANCELED -> SUCCEEDED for a
+            # forward jump, CANCELED -> NOT_STARTED for a backward one).
+            if source_stage.status != WorkflowStatus.RUNNING:
+                logger.info(
+                    "Ignoring jump to %s: source stage %s is %s",
+                    message.target_stage_ref_id,
+                    source_stage.name,
+                    source_stage.status,
+                )
+                return
+
             # Find target stage by ref_id
             target_stage = execution.stage_by_ref_id(message.target_stage_ref_id)
 
